@@ -22,6 +22,19 @@ def public_methods() -> list[str]:
     return sorted(n for n, f in inspect.getmembers(APIClient, predicate=inspect.isfunction) if not n.startswith("_"))
 
 
+def _ret_dict(*a, **k):
+    return {"ok": "yes", "n": "1"}
+
+
+def _ret_true(*a, **k):
+    return True
+
+
+def _cb(v):
+    """A plain application callback; what it returns (nothing, a dict, True) is its own business."""
+    return (_noop, _ret_dict, _ret_true, _noop)[v % 4]
+
+
 def _noop(*a, **k):
     return None
 
@@ -100,13 +113,13 @@ def recipes() -> dict:
         "send_voice_assistant_timer_event": lambda c, v: c.send_voice_assistant_timer_event(M.VoiceAssistantTimerEventType.VOICE_ASSISTANT_TIMER_STARTED, "t1", "n" if v % 2 else None, 10, 5, True),
         "set_voice_assistant_configuration": lambda c, v: c.set_voice_assistant_configuration(["okay nabu"]),
         "siren_command": lambda c, v: c.siren_command(1, state=True, tone="t", volume=0.5, duration=3),
-        "subscribe_bluetooth_connections_free": lambda c, v: c.subscribe_bluetooth_connections_free(_noop),
-        "subscribe_bluetooth_le_advertisements": lambda c, v: c.subscribe_bluetooth_le_advertisements(_noop),
-        "subscribe_bluetooth_le_raw_advertisements": lambda c, v: c.subscribe_bluetooth_le_raw_advertisements(_noop),
-        "subscribe_home_assistant_states": lambda c, v: c.subscribe_home_assistant_states(_noop, _noop if v % 2 else None),
-        "subscribe_logs": lambda c, v: c.subscribe_logs(_noop, log_level=M.LogLevel.LOG_LEVEL_DEBUG if v % 2 else None, dump_config=True if v % 3 == 0 else None),
-        "subscribe_service_calls": lambda c, v: c.subscribe_service_calls(_noop),
-        "subscribe_states": lambda c, v: c.subscribe_states(_noop),
+        "subscribe_bluetooth_connections_free": lambda c, v: c.subscribe_bluetooth_connections_free(_cb(v)),
+        "subscribe_bluetooth_le_advertisements": lambda c, v: c.subscribe_bluetooth_le_advertisements(_cb(v)),
+        "subscribe_bluetooth_le_raw_advertisements": lambda c, v: c.subscribe_bluetooth_le_raw_advertisements(_cb(v)),
+        "subscribe_home_assistant_states": lambda c, v: c.subscribe_home_assistant_states(_cb(v), _cb(v + 1) if v % 2 else None),
+        "subscribe_logs": lambda c, v: c.subscribe_logs(_cb(v), log_level=M.LogLevel.LOG_LEVEL_DEBUG if v % 2 else None, dump_config=True if v % 3 == 0 else None),
+        "subscribe_service_calls": lambda c, v: c.subscribe_service_calls(_cb(v)),
+        "subscribe_states": lambda c, v: c.subscribe_states(_cb(v)),
         "subscribe_voice_assistant": lambda c, v: c.subscribe_voice_assistant(
             handle_start=_start_slow if v % 4 >= 2 else _start_port, handle_stop=_anoop, handle_audio=_anoop if v % 2 else None,
             handle_announcement_finished=_anoop if v % 3 == 0 else None),
